@@ -1,12 +1,21 @@
-"""Registry of constitutive models and helpers to evaluate what they expose (C03, C11, C12, C15)."""
+"""Registry of constitutive models and helpers to evaluate what they expose (C03, C11, C12, C15).
+
+Every entry cites where its parameter ranges / documented moduli come from (docstrings of the model functions, see
+notes/material_registry.md for file:line).  ``reg`` names the eigenvalue regularisation the *source* applies:
+  None        none
+  "tt-eig"    tensortrax.math.linalg.eigvalsh/eigh perturb C[0,0] += 1.49e-8, C[1,1] -= 1.49e-8
+  "jax-1e-4"  the jax model adds diag(0, +-1e-4, -+1e-4) to C before the eigen decomposition
+"""
 import numpy as np
+
+EYE = np.eye(3).reshape(3, 3, 1, 1)
 
 
 def ad_energy(backend, fun, F, **kwargs):
     """Energy of an AD-Hyperelastic model: call the public model function W(C, ...) on plain arrays."""
     C = np.einsum("ki...,kj...->ij...", F, F)
     ntrax = C.ndim - 2
-    if backend == "tensortrax":
+    if backend in ("tensortrax", "tt"):
         import tensortrax as tr
         return np.asarray(tr.function(fun, wrt=0, ntrax=ntrax)(np.ascontiguousarray(C), **kwargs))
     import jax.numpy as jnp
@@ -14,3 +23,200 @@ def ad_energy(backend, fun, F, **kwargs):
     for idx in np.ndindex(*C.shape[2:]):
         out[idx] = float(fun(jnp.asarray(C[(slice(None), slice(None), *idx)]), **kwargs))
     return out
+
+
+class Model:
+    def __init__(self, name, backend, make, nsv=0, sv0=None, energy=None, hyperelastic=True, isotropic=True,
+                 microsphere=False, reg=None, moduli=None, stress_free=True, heavy=False, history=False, fun=None,
+                 objective=True, isochoric=False):
+        self.name, self.backend, self.make = name, backend, make
+        self.nsv, self.sv0, self.energy = nsv, sv0, energy
+        self.hyperelastic, self.isotropic, self.microsphere = hyperelastic, isotropic, microsphere
+        self.reg, self.moduli, self.stress_free = reg, moduli, stress_free
+        self.heavy, self.history, self.fun = heavy, history, fun
+        self.objective = objective
+        self.isochoric = isochoric
+
+    def initial_statevars(self, batch):
+        if self.nsv == 0:
+            return None
+        if self.sv0 is not None:
+            return np.broadcast_to(np.asarray(self.sv0, float).reshape(-1, *([1] * len(batch))), (self.nsv, *batch)).copy()
+        return np.zeros((self.nsv, *batch))
+
+
+def U(rng, a, b):
+    return float(rng.uniform(a, b))
+
+
+def _hyper_models(backend):
+    """(name, sampler, flags) of the model functions written as W(C, ...)."""
+    S = {}
+    S["neo_hooke"] = (lambda r: dict(mu=U(r, 0.5, 2)), dict(moduli=lambda p: (p["mu"], None), isochoric=True))
+    S["mooney_rivlin"] = (lambda r: dict(C10=U(r, 0.2, 1), C01=U(r, 0.05, 0.5)),
+                          dict(moduli=lambda p: (2 * (p["C10"] + p["C01"]), None), isochoric=True))
+    S["yeoh"] = (lambda r: dict(C10=U(r, 0.3, 1), C20=U(r, -0.02, 0.1), C30=U(r, 0, 0.05)),
+                 dict(moduli=lambda p: (2 * p["C10"], None), isochoric=True))
+    S["third_order_deformation"] = (lambda r: dict(C10=U(r, 0.3, 1), C01=U(r, 0.05, 0.3), C11=U(r, 0, 0.05), C20=U(r, -0.02, 0.05),
+                                                   C30=U(r, 0, 0.02)),
+                                    dict(moduli=lambda p: (2 * (p["C10"] + p["C01"]), None), isochoric=True))
+    S["blatz_ko"] = (lambda r: dict(mu=U(r, 0.5, 2)), dict(moduli=lambda p: (p["mu"], None)))
+    S["van_der_waals"] = (lambda r: dict(mu=U(r, 0.5, 2), limit=U(r, 5, 10), a=U(r, 0, 0.3), beta=U(r, 0.05, 0.9)),
+                          dict(moduli=lambda p: (p["mu"], None), isochoric=True, moduli_tol=2e-3))
+    S["van_der_waals[beta=0]"] = (lambda r: dict(mu=U(r, 0.5, 2), limit=U(r, 5, 10), a=U(r, 0, 0.3), beta=0.0),
+                                  dict(moduli=lambda p: (p["mu"], None), isochoric=True, moduli_tol=2e-3, fun="van_der_waals"))
+    S["storakers"] = (lambda r: dict(mu=[U(r, 0.5, 1.5), U(r, 0.1, 0.6)], alpha=[U(r, 1.5, 2.5), U(r, -2, -1)], beta=[U(r, 0.3, 1), U(r, 1, 2)]),
+                      dict(moduli=lambda p: (sum(p["mu"]), sum(2 * m * (1 / 3 + b) for m, b in zip(p["mu"], p["beta"]))),
+                           reg={"tt": "tt-eig", "jax": "jax-1e-4"}))
+    S["extended_tube"] = (lambda r: dict(Gc=U(r, 0.1, 0.5), delta=U(r, 0, 0.1), Ge=U(r, 0.1, 0.5), beta=U(r, 0.1, 0.6)),
+                          dict(moduli=None, isochoric=True, reg={"tt": "tt-eig", "jax": "jax-1e-4"}))
+    S["extended_tube[delta=0]"] = (lambda r: dict(Gc=U(r, 0.1, 0.5), delta=0.0, Ge=U(r, 0.1, 0.5), beta=U(r, 0.1, 0.6)),
+                                   dict(moduli=lambda p: (p["Gc"] + p["Ge"], None), isochoric=True, fun="extended_tube",
+                                        reg={"tt": "tt-eig", "jax": "jax-1e-4"}))
+    S["miehe_goektepe_lulei"] = (lambda r: dict(mu=U(r, 0.1, 0.5), N=U(r, 10, 30), U=U(r, 5, 15), p=U(r, 1.2, 2), q=U(r, 0.1, 0.5)),
+                                 dict(moduli=None, isotropic=False, microsphere=True, isochoric=True))
+    if backend == "tt":
+        S["ogden"] = (lambda r: dict(mu=[U(r, 0.5, 1.5), U(r, 0.05, 0.3)], alpha=[U(r, 1.5, 3), U(r, -2, -1)]),
+                      dict(moduli=lambda p: (sum(p["mu"]), None), isochoric=True, reg={"tt": "tt-eig"}))
+        S["arruda_boyce"] = (lambda r: dict(C1=U(r, 0.5, 2), limit=U(r, 3, 8)),
+                             dict(moduli=lambda p: (p["C1"] * (1 + 3 / (5 * p["limit"] ** 2) + 99 / (175 * p["limit"] ** 4)
+                                                               + 513 / (875 * p["limit"] ** 6) + 42039 / (67375 * p["limit"] ** 8)), None),
+                                  isochoric=True))
+        S["alexander"] = (lambda r: dict(C1=U(r, 0.5, 2), C2=U(r, 0.1, 0.5), C3=U(r, 0.05, 0.3), gamma=U(r, 1, 3), k=U(r, 0.1, 0.5)),
+                          dict(moduli=lambda p: (2 * (p["C1"] + p["C2"] / p["gamma"] + p["C3"]), None), isochoric=True, no_energy=True))
+        S["anssari_benam_bucchi"] = (lambda r: dict(mu=U(r, 0.5, 2), N=U(r, 5, 20)),
+                                     dict(moduli=lambda p: (p["mu"] * (1 - 3 * p["N"]) / (3 - 3 * p["N"]), None), isochoric=True))
+        S["lopez_pamies"] = (lambda r: dict(mu=[U(r, 0.5, 1.5), U(r, 0.05, 0.5)], alpha=[U(r, 0.5, 1.5), U(r, 1.5, 3)]),
+                             dict(moduli=lambda p: (sum(p["mu"]), None), isochoric=True))
+        S["saint_venant_kirchhoff"] = (lambda r: dict(mu=U(r, 0.5, 2), lmbda=U(r, 1, 4)),
+                                       dict(moduli=lambda p: (p["mu"], p["lmbda"] + 2 * p["mu"] / 3)))
+        S["saint_venant_kirchhoff[k=0]"] = (lambda r: dict(mu=U(r, 0.5, 2), lmbda=U(r, 1, 4), k=0),
+                                            dict(moduli=lambda p: (p["mu"], p["lmbda"] + 2 * p["mu"] / 3), fun="saint_venant_kirchhoff",
+                                                 reg={"tt": "tt-eig"}))
+        S["saint_venant_kirchhoff[k=1]"] = (lambda r: dict(mu=U(r, 0.5, 2), lmbda=U(r, 1, 4), k=1),
+                                            dict(moduli=lambda p: (p["mu"], p["lmbda"] + 2 * p["mu"] / 3), fun="saint_venant_kirchhoff",
+                                                 reg={"tt": "tt-eig"}))
+
+        def ortho(r):
+            from .util import random_rotation
+            Q = random_rotation(r, 3)
+            import felupe as fem
+            lm, mu = fem.constitution.lame_converter_orthotropic(E=list(r.uniform(5, 15, 3)), nu=list(r.uniform(0.1, 0.3, 3)),
+                                                                 G=list(r.uniform(1, 4, 3)))
+            return dict(mu=list(mu), lmbda=list(lm), r1=Q[:, 0], r2=Q[:, 1], r3=Q[:, 2])
+        S["saint_venant_kirchhoff_orthotropic"] = (ortho, dict(moduli=None, isotropic=False))
+    return S
+
+
+def build_registry():
+    import felupe as fem
+    import felupe.constitution.tensortrax as TT
+    out = []
+    # ----------------------------------------------------------------------------------------- hand-coded
+    out.append(Model("NeoHooke(mu,bulk)", "hand", lambda r: (lambda p: (fem.NeoHooke(**p), p))(dict(mu=U(r, 0.5, 2), bulk=U(r, 1, 6))),
+                     energy=lambda um, p, F, sv: um.function([F, sv])[0], moduli=lambda p: (p["mu"], p["bulk"])))
+    out.append(Model("NeoHooke(mu)", "hand", lambda r: (lambda p: (fem.NeoHooke(**p), p))(dict(mu=U(r, 0.5, 2))),
+                     energy=lambda um, p, F, sv: um.function([F, sv])[0], moduli=lambda p: (p["mu"], 0.0), isochoric=True))
+    out.append(Model("Volumetric(bulk)", "hand", lambda r: (lambda p: (fem.Volumetric(**p), p))(dict(bulk=U(r, 1, 6))),
+                     energy=lambda um, p, F, sv: um.function([F, sv])[0], moduli=lambda p: (0.0, p["bulk"])))
+    out.append(Model("NeoHookeCompressible(mu,lmbda)", "hand",
+                     lambda r: (lambda p: (fem.NeoHookeCompressible(**p), p))(dict(mu=U(r, 0.5, 2), lmbda=U(r, 1, 4))),
+                     energy=lambda um, p, F, sv: um.function([F, sv])[0], moduli=lambda p: (p["mu"], p["lmbda"] + 2 * p["mu"] / 3)))
+    out.append(Model("NeoHookeCompressible(mu)", "hand", lambda r: (lambda p: (fem.NeoHookeCompressible(**p), p))(dict(mu=U(r, 0.5, 2))),
+                     energy=lambda um, p, F, sv: um.function([F, sv])[0], moduli=None))
+    out.append(Model("LinearElasticLargeStrain(E,nu)", "hand",
+                     lambda r: (lambda p: (fem.LinearElasticLargeStrain(**p), p))(dict(E=U(r, 0.5, 5), nu=U(r, 0.05, 0.45))),
+                     energy=lambda um, p, F, sv: um.function([F, sv])[0],
+                     moduli=lambda p: (p["E"] / (2 * (1 + p["nu"])), p["E"] / (3 * (1 - 2 * p["nu"])))))
+    out.append(Model("OgdenRoxburgh(NeoHooke)", "hand",
+                     lambda r: (lambda p: (fem.OgdenRoxburgh(fem.NeoHooke(mu=p["mu"], bulk=p["bulk"]), r=p["r"], m=p["m"], beta=p["beta"]), p))(
+                         dict(mu=U(r, 0.5, 2), bulk=U(r, 1, 6), r=U(r, 1.5, 4), m=U(r, 0.5, 2), beta=U(r, 0, 0.3))),
+                     nsv=1, hyperelastic=False, history=True, moduli=lambda p: (p["mu"], p["bulk"])))
+    out.append(Model("Composite(NeoHooke&Volumetric)", "hand",
+                     lambda r: (lambda p: (fem.NeoHooke(mu=p["mu"]) & fem.Volumetric(bulk=p["bulk"]), p))(dict(mu=U(r, 0.5, 2), bulk=U(r, 1, 6))),
+                     moduli=lambda p: (p["mu"], p["bulk"])))
+    # ----------------------------------------------------------------------------------------- AD hyperelastic models
+    for backend in ("tt", "jax"):
+        if backend == "jax":
+            import felupe.constitution.jax as JX
+            H, mods = JX.Hyperelastic, JX.models.hyperelastic
+        else:
+            H, mods = TT.Hyperelastic, TT.models.hyperelastic
+        for name, (sampler, fl) in _hyper_models(backend).items():
+            fl = dict(fl)
+            fname = fl.pop("fun", name)
+            fun = getattr(mods, fname)
+            reg = fl.pop("reg", None)
+            reg = reg.get(backend) if isinstance(reg, dict) else reg
+            no_energy = fl.pop("no_energy", False)
+            mt = fl.pop("moduli_tol", None)
+
+            def make(r, H=H, fun=fun, sampler=sampler):
+                p = sampler(r)
+                return H(fun, **p), p
+            m = Model("%s.%s" % (backend, name), backend, make, reg=reg, fun=fun,
+                      energy=None if no_energy else (lambda um, p, F, sv, backend=backend, fun=fun: ad_energy(backend, fun, F, **p)), **fl)
+            m.moduli_tol = mt
+            out.append(m)
+    # state-variable AD models (tensortrax)
+    out.append(Model("tt.finite_strain_viscoelastic", "tt",
+                     lambda r: (lambda p: (TT.Hyperelastic(TT.models.hyperelastic.finite_strain_viscoelastic, nstatevars=6, **p), p))(
+                         dict(mu=U(r, 0.5, 2), eta=U(r, 0.5, 3), dtime=U(r, 0.2, 1))),
+                     nsv=6, sv0=[1, 0, 0, 1, 0, 1], hyperelastic=False, history=True, isochoric=True))
+    out.append(Model("tt.ogden_roxburgh(neo_hooke)", "tt",
+                     lambda r: (lambda p: (TT.Hyperelastic(TT.models.hyperelastic.ogden_roxburgh, material=TT.models.hyperelastic.neo_hooke,
+                                                           nstatevars=1, **p), p))(dict(mu=U(r, 0.5, 2), r=U(r, 1.5, 4), m=U(r, 0.5, 2), beta=U(r, 0, 0.3))),
+                     nsv=1, hyperelastic=False, history=True, isochoric=True, moduli=lambda p: (p["mu"], None)))
+    P_MORPH = [0.039, 0.371, 0.174, 2.41, 0.0094, 6.84, 5.65, 0.244]
+    out.append(Model("tt.lagrange.morph", "tt", lambda r: (TT.Material(TT.models.lagrange.morph, p=P_MORPH, nstatevars=13), dict(p=P_MORPH)),
+                     nsv=13, hyperelastic=False, history=True, reg="tt-eig", isochoric=True))
+    out.append(Model("tt.lagrange.morph_representative_directions", "tt",
+                     lambda r: (TT.Material(TT.models.lagrange.morph_representative_directions, p=P_MORPH, nstatevars=84), dict(p=P_MORPH)),
+                     nsv=84, hyperelastic=False, history=True, isotropic=False, microsphere=True, heavy=True, isochoric=True))
+    out.append(Model("tt.hyperelastic.morph_representative_directions", "tt",
+                     lambda r: (TT.Hyperelastic(TT.models.hyperelastic.morph_representative_directions, p=P_MORPH, nstatevars=84), dict(p=P_MORPH)),
+                     nsv=84, hyperelastic=False, history=True, isotropic=False, microsphere=True, heavy=True, isochoric=True))
+    import felupe.constitution.jax as JX
+    out.append(Model("jax.lagrange.morph", "jax", lambda r: (JX.Material(JX.models.lagrange.morph, p=P_MORPH, nstatevars=13), dict(p=P_MORPH)),
+                     nsv=13, hyperelastic=False, history=True, reg="jax-1e-4", isochoric=True))
+    out.append(Model("jax.lagrange.morph_representative_directions", "jax",
+                     lambda r: (JX.Material(JX.models.lagrange.morph_representative_directions, p=P_MORPH, nstatevars=84), dict(p=P_MORPH)),
+                     nsv=84, hyperelastic=False, history=True, isotropic=False, microsphere=True, heavy=True, isochoric=True))
+
+    # total / updated Lagrange wrappers around small test laws (tensortrax)
+    from tensortrax.math import trace as ttrace
+    from tensortrax.math.linalg import det as tdet, inv as tinv
+
+    def make_tl(r):
+        p = dict(mu=U(r, 0.5, 2), lmbda=U(r, 1, 4))
+
+        @TT.total_lagrange
+        def nh_S(F, mu, lmbda):
+            C = F.T @ F
+            Ci = tinv(C)
+            J = tdet(F)
+            from tensortrax.math import log
+            return mu * (C @ Ci - Ci) + lmbda * log(J) * Ci  # S = mu (I - C^-1) + lmbda ln J C^-1
+        return TT.Material(nh_S, **p), p
+
+    def make_ul(r):
+        p = dict(mu=U(r, 0.5, 2), lmbda=U(r, 1, 4))
+
+        @TT.updated_lagrange
+        def nh_sigma(F, mu, lmbda):
+            b = F @ F.T
+            J = tdet(F)
+            from tensortrax.math import log
+            return (mu * (b - b @ tinv(b)) + lmbda * log(J) * (b @ tinv(b))) / J  # sigma = [mu (b - I) + lmbda ln J I] / J
+        return TT.Material(nh_sigma, **p), p
+    # both wrappers implement compressible Neo-Hooke: siblings of NeoHookeCompressible (used by C12 as well)
+    out.append(Model("tt.total_lagrange(neo-hooke S)", "tt", make_tl, moduli=lambda p: (p["mu"], p["lmbda"] + 2 * p["mu"] / 3)))
+    out.append(Model("tt.updated_lagrange(neo-hooke sigma)", "tt", make_ul, moduli=lambda p: (p["mu"], p["lmbda"] + 2 * p["mu"] / 3)))
+    return out
+
+
+REG_SIZE = {None: 0.0, "tt-eig": 1.4901161193847656e-08, "jax-1e-4": 1e-4}
+
+
+def finite_strain_registry():
+    return build_registry()
